@@ -222,7 +222,6 @@ type world struct {
 	ref    map[string]cloneRef // uuid text -> clone
 	order  []string            // abstract messages in the fixed order
 	owner  map[int][]string    // mailbox -> owner of abstract uid u at index u-1 (history of assignments)
-	rndRid map[string][]string // message -> concrete remote ids after MarkMessageAsDeletedAndAssignRandomRemoteID
 	maxBox int
 	dver   int64
 }
@@ -244,7 +243,7 @@ func newWorld(g map[string]int, order []string, maxBox int) (*world, error) {
 		return nil, err
 	}
 	w := &world{ctx: context.Background(), dir: dir, g: g, order: order, maxBox: maxBox,
-		ids: map[string][]imap.InternalMessageID{}, ref: map[string]cloneRef{}, owner: map[int][]string{}, rndRid: map[string][]string{}}
+		ids: map[string][]imap.InternalMessageID{}, ref: map[string]cloneRef{}, owner: map[int][]string{}}
 	client, _, err := sqlite3.NewBuilder().New(dir, "user")
 	if err != nil {
 		os.RemoveAll(dir)
@@ -369,25 +368,29 @@ func (w *world) listLen(ml []string) int {
 }
 
 // curRid is the concrete remote id clone i of m carries according to the model state pre.
-func (w *world) curRid(pre *mDB, m string, i int) imap.MessageID {
+// A random remote id (MarkMessageAsDeletedAndAssignRandomRemoteID) cannot be predicted: it is asked from the
+// index itself (binding only; the value is checked against the raw tables elsewhere).
+func (w *world) curRid(pre *mDB, m string, i int, ro db.ReadOnly) imap.MessageID {
 	mm := pre.Msgs[m]
 	if !mm.Ex {
 		return msgRid(m, i)
 	}
 	if mm.Rid == "rnd" {
-		if r := w.rndRid[m]; i < len(r) {
-			return imap.MessageID(r[i])
+		if ro != nil {
+			if r, err := ro.GetMessageRemoteID(w.ctx, w.ids[m][i]); err == nil {
+				return r
+			}
 		}
 		return imap.MessageID("DELETED-unknown-" + m + "-" + strconv.Itoa(i))
 	}
 	return msgRid(mm.Rid, i)
 }
 
-func (w *world) pairList(pre *mDB, ml []string) []db.MessageIDPair {
+func (w *world) pairList(pre *mDB, ml []string, ro db.ReadOnly) []db.MessageIDPair {
 	var out []db.MessageIDPair
 	for _, m := range ml {
 		for i, id := range w.ids[m] {
-			out = append(out, db.MessageIDPair{InternalID: id, RemoteID: w.curRid(pre, m, i)})
+			out = append(out, db.MessageIDPair{InternalID: id, RemoteID: w.curRid(pre, m, i, ro)})
 		}
 	}
 	return out
@@ -796,9 +799,6 @@ func (w *world) readRaw(exp *mDB) (*mDB, string, error) {
 			fl = []string{}
 		}
 		got.Msgs[m] = mMsg{Ex: true, Rid: a.rid, Del: a.del, Fl: fl}
-		if a.rid == "rnd" {
-			w.rndRid[m] = a.rids
-		}
 	}
 	// message_to_mailbox
 	pairN := map[mPair]int{}
@@ -872,7 +872,7 @@ func (w *world) readRaw(exp *mDB) (*mDB, string, error) {
 			}
 			if exp != nil {
 				if mm, ok := exp.Msgs[ref.m]; ok && mm.Ex {
-					want := string(w.curRid(exp, ref.m, ref.i))
+					want := string(w.curRid(exp, ref.m, ref.i, nil))
 					if mm.Rid == "rnd" {
 						if a := accs[ref.m]; a.present[ref.i] {
 							want = a.rids[ref.i]
